@@ -297,6 +297,10 @@ func (db *DB) Merge() error {
 		return errors.New("not support mode `HintBPTSparseIdxMode`")
 	}
 
+	if db.closed {
+		return ErrDBClosed
+	}
+
 	verifAccess("isMerging", true, db)
 	db.isMerging = true
 
